@@ -91,9 +91,11 @@ func pbC09(m pbMsg, expCurrent []byte) {
 	out, err := m.Marshal()
 	verifAssert(err == nil, "Marshal succeeds after a mutation")
 	verifAssertCanonical(m, out, expCurrent, "Marshal returns the bytes of the current contents (not of the contents a cached size was computed from)")
-	buf := make([]byte, m.Size())
+	// MarshalTo into a reused scratch buffer (arbitrary previous contents) writes those same bytes
+	buf := nondetBytesLen("scratch", verifConcretize(m.Size()))
 	err = m.MarshalTo(buf)
 	verifAssert(err == nil, "MarshalTo into Size() bytes succeeds after a mutation")
+	verifAssertBytesEq(buf, out, "MarshalTo into a reused buffer writes the bytes of the current contents, whatever the buffer held")
 	verifReach("end")
 }
 
